@@ -11,13 +11,15 @@
 //   phase C <t>                     thread t calls clear()
 //   phase R <t>                     thread t destroys the container and constructs a new one at the same address
 //   phase M <t>                     thread t moves the container away and back (move constructor + move assignment)
+//   phase X <t>                     thread t move-assigns a freshly constructed container into the container (`C fresh; cont = std::move(fresh);`:
+//                                   the old elements die with the temporary; like clear() for everybody else)
 //   phase Y <t>                     thread t copy-constructs a second container, checks it, destroys it
 //   quiet                           print only failing runs
 // A thread lives from the start of the run to its last phase (threads outlive clear(); threads whose first phase comes
 // after a clear() are "new threads").  Per run prints
 //   run <i>
 //   op l <t> <creator>@<generation>|dead|? <exists>      every local() in order of completion
-//   op c|r|m|y <t>
+//   op c|r|m|x|y <t>
 //   chk <phase> size=<n> iter=<sorted creators> live=<constructed and not destroyed elements>
 //   mon ok | VIOLATION <what> | DEADLOCK          (implementation-side monitors, independent of the Lean model)
 //   sched <tids> / end
@@ -169,6 +171,7 @@ template <class C> static bool run_once(
         case 'C': cont->clear(); { Guard g; new_generation(); out.push_back("op c " + std::to_string(t)); } break;
         case 'R': cont->~C(); cont = new (storage) C(); { Guard g; new_generation(); out.push_back("op r " + std::to_string(t)); } break;
         case 'M': { C tmp(std::move(*cont)); *cont = std::move(tmp); } { Guard g; out.push_back("op m " + std::to_string(t)); } break;
+        case 'X': { { C fresh; *cont = std::move(fresh); } Guard g; new_generation(); out.push_back("op x " + std::to_string(t)); } break;
         case 'Y': {
             C copy(*cont);
             std::set<int> owners; size_t n2 = 0;
@@ -249,7 +252,7 @@ int main(int argc, char** argv) {
             Phase ph; std::string k; is >> k; ph.kind = k.empty() ? '?' : k[0];
             std::string tok;
             while (is >> tok) { int t = atoi(tok.c_str()), n = 0; size_t c = tok.find(':'); if (c != std::string::npos) n = atoi(tok.c_str() + c + 1); ph.who.push_back({t, n}); }
-            bool ok = std::string("LCRMY").find(ph.kind) != std::string::npos && !ph.who.empty() && (ph.kind == 'L' || ph.who.size() == 1);
+            bool ok = std::string("LCRMXY").find(ph.kind) != std::string::npos && !ph.who.empty() && (ph.kind == 'L' || ph.who.size() == 1);
             for (auto& x : ph.who) if (x.first < 0 || x.first >= g_T) ok = false;
             if (!ok) { fprintf(stderr, "bad-op: %s", line); return 2; }
             g_phases.push_back(ph);
